@@ -262,7 +262,7 @@ pub fn run(ctx: &Ctx) -> i32 {
     let mut rep = Report::new(
         ctx,
         "programs (conforming / planted violation / wild) printed under random styles in several layouts: comment header, statement on the very first line, 1-3 leading blank lines, \
-         tab indentation, non-ASCII comments and strings, last line without newline, two statements on one line, split into included files. Every token of the real lexer, every parsed node, \
+         tab indentation, non-ASCII comments and strings, last line without newline, two statements on one line, split into included files, CR/LF and mixed line endings. Every token of the real lexer, every parsed node, \
          every parse error and diagnostic is checked against the reference position model (line/column/raw mutually consistent, inside the file, one line, slice = the token / statement / register it names). \
          distinct_nontrivial = distinct (layout, text) pairs checked",
     );
@@ -279,7 +279,7 @@ pub fn run(ctx: &Ctx) -> i32 {
                 _ => (Profile::wild_surface(), None),
             };
             let g = gen::generate(&mut rng, &prof, inject);
-            for layout in ["plain", "styled", "first-line", "leading-blank", "two-per-line", "included", "no-final-newline"] {
+            for layout in ["plain", "styled", "first-line", "leading-blank", "two-per-line", "included", "no-final-newline", "crlf", "mixed-line-endings"] {
                 let mut st = if layout == "plain" { Style::plain() } else { Style::random(&mut rng) };
                 st.p_label_inline = if layout == "two-per-line" { 1.0 } else { st.p_label_inline };
                 match layout {
@@ -311,6 +311,21 @@ pub fn run(ctx: &Ctx) -> i32 {
                             out.push_str(l);
                             out.push('\n');
                             i += 1;
+                        }
+                    }
+                    text = out;
+                }
+                if layout == "crlf" {
+                    text = text.replace('\n', "\r\n");
+                }
+                if layout == "mixed-line-endings" {
+                    let mut out = String::new();
+                    for l in text.split_inclusive('\n') {
+                        if rng.chance(0.4) && l.ends_with('\n') {
+                            out.push_str(&l[..l.len() - 1]);
+                            out.push_str("\r\n");
+                        } else {
+                            out.push_str(l);
                         }
                     }
                     text = out;
